@@ -65,8 +65,6 @@ RoundTrip == (mode = "rt" /\ AllLegal(Cur)) =>
                  LET r == ParseAll(EmptyKm, Cur) IN ~r.err /\ r.km = MeanAll(EmptyKm, Cur)
 (* arguments the documentation promises to carry are among those the scanner carries *)
 DocWithinCode == mode = "rt" => \A a \in {arg} : DocCarry(form, a) => Carry(form, a)
-(* an argument outside Carry does not round-trip silently into something else with the same keys: it is an error  *)
-(* or a different binding - never accepted with the argument altered AND reported equal (sanity of Legal)         *)
 TypeOK == mode \in {"rt", "seq"}
 
 (* ---- export ---- *)
